@@ -33,6 +33,8 @@ import (
 	"time"
 
 	"github.com/parquet-go/parquet-go"
+	"github.com/parquet-go/parquet-go/encoding/thrift"
+	"github.com/parquet-go/parquet-go/format"
 
 	"verifharness/core"
 	"verifharness/drv"
@@ -254,6 +256,10 @@ type c14Row struct {
 	V []byte  `parquet:"v,plain"`
 	O *int32  `parquet:"o,optional"`
 	L []int64 `parquet:"l,list"`
+}
+
+type c14Dict struct {
+	Name string `parquet:"name,dict"`
 }
 
 func c14Rows(r *rand.Rand, n int) []c14Row {
@@ -568,6 +574,22 @@ func c14Configs(ctx *core.Ctx) []*c14Config {
 			bloom, parquet.MaxRowsPerRowGroup(25))
 		c.nondet = true
 		c.fileOpts = []parquet.FileOption{parquet.WithDecryption(c14Keys{key})}
+	}
+	// one dictionary-encoded column spread over many pages of one row group (a SeekToRow into a
+	// later page loads the dictionary lazily)
+	{
+		drows := make([]c14Dict, 300)
+		for i := range drows {
+			drows[i].Name = fmt.Sprintf("value-%03d", i%37)
+		}
+		var batches []int
+		for i := 0; i < len(drows); i += 20 {
+			batches = append(batches, 20)
+		}
+		c := &c14Config{name: "dict-many-pages", path: "generic", bufSize: 256, l2buffered: true, nrows: len(drows),
+			run: c14GenericSteps(drows, batches, parquet.PageBufferSize(64))}
+		c.desc = "c14Dict{name string dict} path=generic rows=300 batches=20x15 pagebuf=64 buf=256"
+		add(c)
 	}
 	// SortingWriter
 	{
@@ -954,6 +976,12 @@ func c14SinkVariant(ctx *core.Ctx, v *c14Variant, sample bool) {
 					detail(k, mode, e, nil))
 				continue
 			}
+			if sink.heldAtFail < 0 && !errors.Is(e.calls[first].err, errC14Injected) {
+				// the destination has not failed yet: the error comes from the environment (e.g. the
+				// temp-file pool of the page buffers on a full disk), not from the injected fault
+				ctx.Hist("sink.skipped", "environment-error")
+				continue
+			}
 			ctx.Hist("sink.first-reporter", e.calls[first].name)
 			// nothing altered before the fault
 			if h := sink.heldAtFail; !c.nondet && h >= 0 && !bytes.Equal(sink.data[:h], v.file[:h]) {
@@ -1241,6 +1269,7 @@ type c14File struct {
 	onlyN    int
 	onlyMode string
 	onlyKeep int
+	onlyHist string
 }
 
 func c14Files(ctx *core.Ctx) []*c14File {
@@ -1733,6 +1762,7 @@ func RunC14ReadAt(ctx *core.Ctx) {
 			f.only = true
 			f.onlyN, _ = rp.num("failing_call")
 			f.onlyMode = rp.str("mode")
+			f.onlyHist = rp.str("history")
 			f.onlyKeep = -1
 			if k, ok := rp.num("kept_bytes"); ok && strings.HasPrefix(f.onlyMode, "short") {
 				f.onlyKeep = k
@@ -1752,27 +1782,178 @@ func RunC14ReadAt(ctx *core.Ctx) {
 	}
 }
 
+// a read history: what the program does with the file between OpenFile and the last read.
+// run returns class open-error | read-error | panic | complete | altered; histories that cannot
+// compare with the written rows themselves return "ok" and a digest of everything they read, which
+// is compared with the digest of the fault-free run.
+type c14History struct {
+	name string
+	run  func(r io.ReaderAt, size int64, f *c14File) (class, digest string, err error)
+}
+
+func c14Histories(ctx *core.Ctx) []c14History {
+	hs := []c14History{{"sequential", func(r io.ReaderAt, size int64, f *c14File) (string, string, error) {
+		class, err := c14ReadOutcome(r, size, f)
+		return class, "", err
+	}}}
+	// SeekToRow into a later page before anything else was read (the dictionary is then loaded
+	// lazily from the start of the chunk), then read to the end of the row group
+	for _, fr := range [][2]int64{{3, 4}, {1, 2}, {1, 100}} {
+		fr := fr
+		hs = append(hs, c14History{fmt.Sprintf("rows-seek-%d/%d", fr[0], fr[1]), func(r io.ReaderAt, size int64, f *c14File) (string, string, error) {
+			return c14SeekRows(r, size, f, fr[0], fr[1])
+		}})
+	}
+	hs = append(hs, c14History{"pages-seek-3/4", func(r io.ReaderAt, size int64, f *c14File) (string, string, error) {
+		return c14SeekPages(r, size, f, 3, 4)
+	}})
+	return hs
+}
+
+func c14SeekTarget(n, num, den int64) int64 {
+	k := n * num / den
+	if k < 1 && n > 1 {
+		k = 1
+	}
+	return k
+}
+
+func c14SeekRows(r io.ReaderAt, size int64, f *c14File, num, den int64) (class, digest string, err error) {
+	defer func() {
+		if p := recover(); p != nil {
+			class, err = "panic", fmt.Errorf("%v | %s", p, c14Stack())
+		}
+	}()
+	pf, err := parquet.OpenFile(r, size, f.opts...)
+	if err != nil {
+		return "open-error", "", err
+	}
+	var sb strings.Builder
+	for gi, rg := range pf.RowGroups() {
+		n := rg.NumRows()
+		k := c14SeekTarget(n, num, den)
+		rows := rg.Rows()
+		if err := rows.SeekToRow(k); err != nil {
+			rows.Close()
+			return "read-error", "", err
+		}
+		got := int64(0)
+		buf := make([]parquet.Row, 16)
+		for {
+			m, err := rows.ReadRows(buf)
+			for _, row := range buf[:m] {
+				got++
+				for _, v := range row {
+					fmt.Fprintf(&sb, "%d:%v,", v.Column(), gen.TripleOf(v))
+				}
+				sb.WriteByte(';')
+			}
+			if err == io.EOF {
+				break
+			}
+			if err != nil {
+				rows.Close()
+				return "read-error", "", err
+			}
+			if m == 0 {
+				rows.Close()
+				return "read-error", "", fmt.Errorf("ReadRows returned 0 rows and no error")
+			}
+		}
+		rows.Close()
+		fmt.Fprintf(&sb, "|rg%d rows %d..%d: %d\n", gi, k, n, got)
+	}
+	return "ok", sb.String(), nil
+}
+
+func c14SeekPages(r io.ReaderAt, size int64, f *c14File, num, den int64) (class, digest string, err error) {
+	defer func() {
+		if p := recover(); p != nil {
+			class, err = "panic", fmt.Errorf("%v | %s", p, c14Stack())
+		}
+	}()
+	pf, err := parquet.OpenFile(r, size, f.opts...)
+	if err != nil {
+		return "open-error", "", err
+	}
+	var sb strings.Builder
+	for gi, rg := range pf.RowGroups() {
+		k := c14SeekTarget(rg.NumRows(), num, den)
+		for ci, cc := range rg.ColumnChunks() {
+			pages := cc.Pages()
+			if err := pages.SeekToRow(k); err != nil {
+				pages.Close()
+				return "read-error", "", err
+			}
+			vals := make([]parquet.Value, 64)
+			for {
+				p, err := pages.ReadPage()
+				if err == io.EOF {
+					break
+				}
+				if err != nil {
+					pages.Close()
+					return "read-error", "", err
+				}
+				vr := p.Values()
+				for {
+					m, err := vr.ReadValues(vals)
+					for _, v := range vals[:m] {
+						fmt.Fprintf(&sb, "%v,", gen.TripleOf(v))
+					}
+					if err != nil {
+						if err != io.EOF {
+							parquet.Release(p)
+							pages.Close()
+							return "read-error", "", err
+						}
+						break
+					}
+					if m == 0 {
+						break
+					}
+				}
+				parquet.Release(p)
+			}
+			pages.Close()
+			fmt.Fprintf(&sb, "|rg%d col%d from %d\n", gi, ci, k)
+		}
+	}
+	return "ok", sb.String(), nil
+}
+
 func c14ReadAtFile(ctx *core.Ctx, f *c14File, sample bool) {
-	r := ctx.Rand("c14/readat/" + f.name)
+	bounds := c14PageBounds(f)
+	for _, h := range c14Histories(ctx) {
+		if f.only && f.onlyHist != "" && f.onlyHist != h.name {
+			continue
+		}
+		c14ReadAtHistory(ctx, f, h, bounds, sample && h.name == "sequential")
+	}
+}
+
+func c14ReadAtHistory(ctx *core.Ctx, f *c14File, h c14History, bounds []int64, sample bool) {
+	r := ctx.Rand("c14/readat/" + f.name + "/" + h.name)
 	var calls [][2]int64
+	var want string
 	count := func() (int, string) {
 		x := &c14ReaderAt{r: bytes.NewReader(f.data), failAt: -1, keep: -1, record: true}
-		class, _ := c14ReadOutcome(x, int64(len(f.data)), f)
-		calls = x.log
+		class, digest, _ := h.run(x, int64(len(f.data)), f)
+		calls, want = x.log, digest
 		return int(x.calls), class
 	}
 	n1, class := count()
+	want1 := want
 	n2, _ := count()
-	if class != "complete" {
-		ctx.Fail("L1", "fault-free-read-fails", "reading the file through a pass-through ReaderAt does not return the rows: "+class, map[string]any{"file": f.desc})
+	if class != "complete" && class != "ok" {
+		ctx.Fail("L1", "fault-free-read-fails history="+h.name, "reading the file through a pass-through ReaderAt fails: "+class, map[string]any{"file": f.desc, "history": h.name})
 		return
 	}
-	if n1 != n2 || len(calls) != n1 {
+	if n1 != n2 || len(calls) != n1 || want != want1 {
 		ctx.Hist("readat.deterministic", "no")
 		return
 	}
-	bounds := c14PageBounds(f)
-	ctx.Hist("readat.calls", sizeBucket(n1))
+	ctx.Hist("readat.calls "+h.name, sizeBucket(n1))
 	idx := make([]int, n1)
 	for i := range idx {
 		idx[i] = i
@@ -1795,7 +1976,8 @@ func c14ReadAtFile(ctx *core.Ctx, f *c14File, sample bool) {
 		}
 		off, ln := calls[i][0], int(calls[i][1])
 		// short reads: half of the request, its ends, and every cut that falls on a page boundary
-		// (the place where a premature io.EOF looks like the end of a column chunk)
+		// or between a page header and its body (the places where a premature io.EOF can look
+		// like the end of a column chunk or of a page)
 		cuts := []int{-1}
 		if ln > 2 {
 			cuts = append(cuts, 1, ln-1)
@@ -1806,8 +1988,10 @@ func c14ReadAtFile(ctx *core.Ctx, f *c14File, sample bool) {
 				onBound = append(onBound, int(b-off))
 			}
 		}
-		if max := ctx.Scale(6, 1000); len(onBound) > max {
-			r.Shuffle(len(onBound), func(a, b int) { onBound[a], onBound[b] = onBound[b], onBound[a] })
+		if max := ctx.Scale(8, 2000); len(onBound) > max {
+			// keep the first ones (dictionary page header/body of the chunk the read starts in)
+			rest := onBound[4:]
+			r.Shuffle(len(rest), func(a, b int) { rest[a], rest[b] = rest[b], rest[a] })
 			onBound = onBound[:max]
 		}
 		cuts = append(cuts, onBound...)
@@ -1821,7 +2005,13 @@ func c14ReadAtFile(ctx *core.Ctx, f *c14File, sample bool) {
 		for _, ft := range faults {
 			mode := ft.mode
 			x := &c14ReaderAt{r: bytes.NewReader(f.data), failAt: int32(i), mode: mode, keep: ft.keep}
-			class, err := c14ReadOutcome(x, int64(len(f.data)), f)
+			class, digest, err := h.run(x, int64(len(f.data)), f)
+			if class == "ok" {
+				class = "complete"
+				if digest != want {
+					class, err = "altered", fmt.Errorf("read %s instead of %s", c14DigestDiff(digest, want), c14DigestDiff(want, digest))
+				}
+			}
 			kept := 0
 			if mode == "short" || mode == "shorteof" {
 				kept = x.cut(x.hitLen)
@@ -1833,49 +2023,89 @@ func c14ReadAtFile(ctx *core.Ctx, f *c14File, sample bool) {
 			if ft.keep >= 0 && mode == "shorteof" {
 				ctx.Hist("readat.cut", "chosen")
 			}
-			ctx.Case(fmt.Sprintf("readat|%s|%d|%s|%d", f.name, i, mode, kept), i > 0)
+			ctx.Case(fmt.Sprintf("readat|%s|%s|%d|%s|%d", f.name, h.name, i, mode, kept), i > 0)
 			ctx.Hist("readat.outcome "+mode, class)
-			detail := map[string]any{"file": f.desc, "name": f.name, "file_size": len(f.data), "failing_call": i, "calls_fault_free": n1,
-				"mode": mode, "read_length": x.hitLen, "kept_bytes": kept, "outcome": class}
+			ctx.Hist("readat.history", h.name)
+			detail := map[string]any{"file": f.desc, "name": f.name, "file_size": len(f.data), "history": h.name, "failing_call": i, "calls_fault_free": n1,
+				"mode": mode, "read_offset": off, "read_length": x.hitLen, "kept_bytes": kept, "outcome": class}
 			if err != nil {
-				detail["error"] = err.Error()
+				detail["error"] = headOf(err.Error(), 600)
 			}
 			if sample && i == n1/2 && mode == "short" {
 				ctx.Sample(detail)
 			}
+			hk := "history=" + strings.SplitN(h.name, "-", 2)[0]
 			switch class {
 			case "panic":
-				ctx.Fail("L1", "readat-fault-panics mode="+mode+" "+panicClass(err.Error()), fmt.Sprintf("ReadAt call %d fails (%s) and the reader panics", i, mode), detail)
+				ctx.Fail("L1", "readat-fault-panics mode="+mode+" "+hk+" "+panicClass(err.Error()), fmt.Sprintf("ReadAt call %d fails (%s) and the reader panics", i, mode), detail)
 			case "altered":
-				ctx.Fail("L1", "readat-fault-alters-rows mode="+mode, fmt.Sprintf("ReadAt call %d fails (%s) and the reader returns fewer or different rows without an error", i, mode), detail)
+				key := "readat-fault-alters-rows mode=" + mode
+				if h.name != "sequential" {
+					key += " " + hk
+				}
+				ctx.Fail("L1", key, fmt.Sprintf("ReadAt call %d fails (%s) and the reader returns fewer or different rows without an error", i, mode), detail)
 			case "complete":
 				// every row was returned although a read failed: the bytes were not needed or were
 				// fetched again; not a loss, counted
 				ctx.Hist("readat.absorbed "+mode, "complete-rows")
-				if os.Getenv("C14_TIMING") != "" {
-					fmt.Fprintf(os.Stderr, "absorbed %s call=%d/%d len=%d mode=%s\n", f.name, i, n1, x.hitLen, mode)
-				}
 			}
 		}
 	}
 }
 
-// c14PageBounds lists the file offsets at which a page starts or a column chunk ends.
+// c14DigestDiff shows where digest a departs from b
+func c14DigestDiff(a, b string) string {
+	i := 0
+	for i < len(a) && i < len(b) && a[i] == b[i] {
+		i++
+	}
+	lo := i - 40
+	if lo < 0 {
+		lo = 0
+	}
+	return fmt.Sprintf("[%d bytes, at %d: …%s]", len(a), i, headOf(a[lo:], 120))
+}
+
+// c14PageBounds lists the file offsets at which a page starts, a page header ends (its body
+// starts) or a column chunk ends.
 func c14PageBounds(f *c14File) (bounds []int64) {
 	defer func() { recover() }()
 	pf, err := parquet.OpenFile(bytes.NewReader(f.data), int64(len(f.data)), f.opts...)
 	if err != nil {
 		return nil
 	}
+	set := map[int64]bool{}
+	page := func(off int64) { // start of a page: add the end of its header and of its body
+		if off <= 0 || off >= int64(len(f.data)) {
+			return
+		}
+		set[off] = true
+		func() {
+			defer func() { recover() }()
+			rd := bytes.NewReader(f.data[off:])
+			var hdr format.PageHeader
+			if err := thrift.NewDecoder(new(thrift.CompactProtocol).NewReader(rd)).Decode(&hdr); err != nil {
+				return // encrypted header
+			}
+			hlen := int64(len(f.data[off:]) - rd.Len())
+			set[off+hlen] = true
+			set[off+hlen+int64(hdr.CompressedPageSize)] = true
+		}()
+	}
 	for _, oi := range pf.OffsetIndexes() {
 		for _, pl := range oi.PageLocations {
-			bounds = append(bounds, pl.Offset, pl.Offset+int64(pl.CompressedPageSize))
+			page(pl.Offset)
+			set[pl.Offset+int64(pl.CompressedPageSize)] = true
 		}
 	}
 	for _, rg := range pf.Metadata().RowGroups {
 		for _, cc := range rg.Columns {
-			bounds = append(bounds, cc.MetaData.DataPageOffset)
+			page(cc.MetaData.DataPageOffset)
+			page(cc.MetaData.DictionaryPageOffset)
 		}
+	}
+	for b := range set {
+		bounds = append(bounds, b)
 	}
 	sort.Slice(bounds, func(i, j int) bool { return bounds[i] < bounds[j] })
 	return bounds
